@@ -33,6 +33,9 @@ type qtCtx struct {
 	from   AV        // query point of the final Find
 	boundT [4]*fterm // l, b, l+w, b+h
 	tree   AV
+	k      int    // k of the final KNearest
+	maxD   AV     // its variadic distance limit (a nil or one-element slice)
+	maxT   *fterm // the squared limit, nil when there is none
 }
 
 type qtModel struct {
@@ -93,7 +96,7 @@ func qtLabel(ops []qtOp) string {
 func quadtreeSpecs(thorough bool) []composeSpec {
 	var cases []composeCase
 	for _, ops := range qtHistories(thorough) {
-		for _, q := range []string{"dump", "box", "find"} {
+		for _, q := range []string{"dump", "box", "find", "knn1", "knn2", "knn1max", "knn2max"} {
 			ops, q := ops, q
 			np := 0
 			for _, o := range ops {
@@ -104,10 +107,17 @@ func quadtreeSpecs(thorough bool) []composeSpec {
 			if q == "find" && len(ops) > 4 {
 				continue
 			}
-			if !thorough && np >= 3 && q != "dump" {
-				continue // three points with an unknown query: thorough tier
+			if strings.HasPrefix(q, "knn") && (len(ops) > 3 || len(ops) == 0 && q != "knn1") {
+				continue
 			}
-			cases = append(cases, composeCase{qtLabel(ops) + "; then " + map[string]string{"dump": "InBound over the tree's bound", "box": "InBound over any box", "find": "Find from any point"}[q], func(it *Interp, s *State) ([]AV, interface{}) {
+			if strings.HasPrefix(q, "knn") && !thorough && (len(ops) > 2 && q != "knn2" && !(np == 3 && q == "knn1") || len(ops) == 1 && !ops[0].add) {
+				continue
+			}
+			if !thorough && np >= 3 && q != "dump" && !(q == "knn1" && len(ops) == 3) {
+				continue // three points with an unknown query: thorough tier (but for one k-nearest search that prunes)
+			}
+			cases = append(cases, composeCase{qtLabel(ops) + "; then " + map[string]string{"dump": "InBound over the tree's bound", "box": "InBound over any box", "find": "Find from any point",
+				"knn1": "KNearest(1) from any point", "knn2": "KNearest(2) from any point", "knn1max": "KNearest(1) from any point within any distance", "knn2max": "KNearest(2) from any point within any distance"}[q], func(it *Interp, s *State) ([]AV, interface{}) {
 				ctx := &qtCtx{ops: ops, query: q}
 				l, b := it.freeFloat().(FloatV), it.freeFloat().(FloatV)
 				w, h := it.freeFloat().(FloatV), it.freeFloat().(FloatV)
@@ -142,6 +152,17 @@ func quadtreeSpecs(thorough bool) []composeSpec {
 				case "find":
 					ctx.from = freePointAV(it)
 					ctx.box = bound
+				case "knn1", "knn2", "knn1max", "knn2max":
+					ctx.from = freePointAV(it)
+					ctx.box = bound
+					ctx.k = int(q[3] - '0')
+					ctx.maxD = SliceV{Nil: true}
+					if strings.HasSuffix(q, "max") {
+						m := it.freeFloat().(FloatV)
+						it.NonNeg[m.Sym], it.Positive[m.Sym] = true, true
+						ctx.maxD = SliceV{Arr: it.newCell(s, ArrV{N: 1, Elems: []AV{m}, Def: FloatV{Finite: true}}), Hi: 1, Cap: 1}
+						ctx.maxT = termMul(termAtom(m.Sym), termAtom(m.Sym))
+					}
 				default:
 					ctx.box = bound
 				}
@@ -210,6 +231,9 @@ func quadtreeSpecs(thorough bool) []composeSpec {
 				if ctx.query == "find" {
 					return "quadtree.(*Quadtree).Find", []AV{tree, ctx.from}, true
 				}
+				if ctx.k > 0 {
+					return "quadtree.(*Quadtree).KNearest", []AV{tree, SliceV{Nil: true}, ctx.from, IntV{Known: true, V: int64(ctx.k)}, ctx.maxD}, true
+				}
 				return "quadtree.(*Quadtree).InBound", []AV{tree, SliceV{Nil: true}, ctx.box}, true
 			}
 			op := ctx.ops[k]
@@ -221,7 +245,7 @@ func quadtreeSpecs(thorough bool) []composeSpec {
 	}
 	return []composeSpec{{
 		entry: "quadtree.New", terms: true, anyPath: true, skipTruncated: true, generalPosition: true, steps: steps, cases: cases,
-		desc: "after the history the tree holds exactly the pointers added and not removed (InBound over the tree's bound returns each of them once); Remove answers true exactly for a stored pointer; InBound over any box returns exactly the stored pointers that lie inside the closed box",
+		desc: "after the history the tree holds exactly the pointers added and not removed (InBound over the tree's bound returns each of them once); Remove answers true exactly for a stored pointer; InBound over any box returns exactly the stored pointers that lie inside the closed box; Find returns a stored pointer and every other stored pointer is shown by the path's comparisons (or, when never looked at, by lying outside the square of half-width sqrt(D) that pruned it) to be no closer; KNearest returns min(k, stored) stored pointers (fewer only under a distance limit), nearest first, each strictly within the limit, and every stored pointer left out is shown by the path's comparisons to be no closer than the last one returned or outside the limit",
 		judge: func(it *Interp, cx interface{}, st *State) string {
 			ctx := cx.(*qtCtx)
 			model, _ := st.notes["model"].(*qtModel)
@@ -242,6 +266,9 @@ func quadtreeSpecs(thorough bool) []composeSpec {
 			}
 			if ctx.query == "find" {
 				return qtFindJudge(it, ctx, model, st)
+			}
+			if ctx.k > 0 {
+				return qtNearestJudge(it, ctx, model, st)
 			}
 			res, ok := st.result[0].(SliceV)
 			if !ok || res.Top {
@@ -368,6 +395,7 @@ type termOrder struct {
 	it    *Interp
 	nodes map[string]int
 	terms []*fterm
+	keys  []string
 	le    map[int]map[int]bool
 	lt    map[[2]int]bool
 }
@@ -380,6 +408,7 @@ func (g *termOrder) node(t *fterm) int {
 	id := len(g.terms)
 	g.nodes[key] = id
 	g.terms = append(g.terms, t)
+	g.keys = append(g.keys, key)
 	return id
 }
 
@@ -429,20 +458,46 @@ func (g *termOrder) relate(t *fterm) int {
 		return id
 	}
 	id := g.node(t)
-	for j, u := range g.terms {
+	for j := range g.terms {
 		if j == id {
 			continue
 		}
-		if r, ok := g.it.termCompare("<=", t, u); ok && r {
-			strict, ok2 := g.it.termCompare("<", t, u)
-			g.addLe(id, j, ok2 && strict)
-		}
-		if r, ok := g.it.termCompare("<=", u, t); ok && r {
-			strict, ok2 := g.it.termCompare("<", u, t)
-			g.addLe(j, id, ok2 && strict)
-		}
+		g.static(id, j)
 	}
 	return id
+}
+
+// static: the order of two nodes that the signs of the coefficients alone decide (the same on every path of
+// the case: kept on the interpreter).
+func (g *termOrder) static(i, j int) {
+	a, b := g.terms[i], g.terms[j]
+	key := [2]string{g.keys[i], g.keys[j]}
+	if g.it.orderCache == nil {
+		g.it.orderCache = map[[2]string]uint8{}
+	}
+	code, ok := g.it.orderCache[key]
+	if !ok {
+		// bit 0: a <= b, bit 1: a < b, bit 2: b <= a, bit 3: b < a
+		if r, ok := g.it.termCompare("<=", a, b); ok && r {
+			code |= 1
+			if strict, ok2 := g.it.termCompare("<", a, b); ok2 && strict {
+				code |= 2
+			}
+		}
+		if r, ok := g.it.termCompare("<=", b, a); ok && r {
+			code |= 4
+			if strict, ok2 := g.it.termCompare("<", b, a); ok2 && strict {
+				code |= 8
+			}
+		}
+		g.it.orderCache[key] = code
+	}
+	if code&1 != 0 {
+		g.addLe(i, j, code&2 != 0)
+	}
+	if code&4 != 0 {
+		g.addLe(j, i, code&8 != 0)
+	}
 }
 
 func (g *termOrder) closeAll() {
@@ -452,14 +507,7 @@ func (g *termOrder) closeAll() {
 	n := len(g.terms)
 	for i := 0; i < n; i++ {
 		for j := i + 1; j < n; j++ {
-			if r, ok := g.it.termCompare("<=", g.terms[i], g.terms[j]); ok && r {
-				strict, ok2 := g.it.termCompare("<", g.terms[i], g.terms[j])
-				g.addLe(i, j, ok2 && strict)
-			}
-			if r, ok := g.it.termCompare("<=", g.terms[j], g.terms[i]); ok && r {
-				strict, ok2 := g.it.termCompare("<", g.terms[j], g.terms[i])
-				g.addLe(j, i, ok2 && strict)
-			}
+			g.static(i, j)
 		}
 	}
 	g.lt[[2]int{-1, -1}] = true
@@ -561,11 +609,11 @@ func qtFindJudge(it *Interp, ctx *qtCtx, model *qtModel, st *State) string {
 			dr = d
 		}
 	}
-	looked := func(t *fterm) bool {
-		key := t.N.String() + "/" + t.D.String()
-		_, ok := g.nodes[key]
-		return ok
+	seen := map[string]bool{}
+	for k := range g.nodes {
+		seen[k] = true
 	}
+	looked := func(t *fterm) bool { return seen[t.N.String()+"/"+t.D.String()] }
 	if os.Getenv("ORBCHECK_FINDDBG") != "" {
 		fmt.Printf("FIND result=%v items=%v\n", qtNames(ctx, []string{rid}), qtNames(ctx, model.items))
 		for _, id := range model.items {
@@ -579,13 +627,171 @@ func qtFindJudge(it *Interp, ctx *qtCtx, model *qtModel, st *State) string {
 			}
 		}
 	}
-	for _, id := range model.items {
-		if id == rid {
+	for i, id := range ctx.ids {
+		if id == rid || !qtHas(model.items, id) {
 			continue
 		}
-		if looked(terms[id]) && !g.leq(dr, terms[id]) {
+		if g.leq(dr, terms[id]) {
+			continue
+		}
+		if looked(terms[id]) {
 			return fmt.Sprintf("%v was looked at, but nothing on this path establishes that the returned pointer is at least as close", qtNames(ctx, []string{id}))
 		}
+		if !qtPrunedFarther(it, g, q, pointTerms(it, ctx.points[i].(IfaceV).Val), dr) {
+			return fmt.Sprintf("%v is stored and was never looked at, and nothing on this path establishes that it lies outside a square of half-width sqrt(D) around the query for a D at least the returned pointer's squared distance (it may be closer)", qtNames(ctx, []string{id}))
+		}
+	}
+	return ""
+}
+
+func qtHas(items []string, id string) bool {
+	for _, x := range items {
+		if x == id {
+			return true
+		}
+	}
+	return false
+}
+
+// qtPrunedFarther: the geometric argument for a pointer the search never looked at.  The path must place it,
+// on one axis, beyond q +- sqrt(D) for some D the path shows to be at least `limit`: then its squared distance
+// exceeds D >= limit.
+func qtPrunedFarther(it *Interp, g *termOrder, q, p [2]*fterm, limit *fterm) bool {
+	// the square roots the path's own comparisons mention
+	onPath := map[int]bool{}
+	for _, t := range g.terms {
+		for _, pl := range []poly{t.N, t.D} {
+			for k := range pl {
+				for id := range parseMono(k) {
+					if it.atomFn[id] == "sqrt" {
+						onPath[id] = true
+					}
+				}
+			}
+		}
+	}
+	ids := make([]int, 0, len(onPath))
+	for id := range onPath {
+		ids = append(ids, id)
+	}
+	sort.Ints(ids)
+	for _, id := range ids {
+		T := it.absOf[id]
+		if T == nil || !g.leq(limit, T) {
+			continue
+		}
+		s := termAtom(id)
+		for k := 0; k < 2; k++ {
+			if g.less(termAdd(q[k], s, 1), p[k]) || g.less(p[k], termAdd(q[k], s, -1)) {
+				return true
+			}
+		}
+	}
+	return false
+}
+
+// qtNearestJudge: KNearest(k[, limit]) returns stored pointers, each at most as often as it is stored, sorted
+// nearest first and strictly within the limit; without a limit there are min(k, stored) of them; and every stored
+// pointer left out is, by the comparisons made on the path, no closer than the last one returned (when k were
+// returned) or not within the limit.  A pointer the search never looked at needs the geometric argument of
+// qtPrunedFarther.
+func qtNearestJudge(it *Interp, ctx *qtCtx, model *qtModel, st *State) string {
+	res, ok := st.result[0].(SliceV)
+	if !ok || res.Top {
+		return "the answer of KNearest is not followed"
+	}
+	var got []string
+	if !res.Nil {
+		for _, e := range membersOf(st, res) {
+			iv, ok := e.(IfaceV)
+			if !ok || iv.Nil {
+				return "KNearest returns a nil pointer"
+			}
+			got = append(got, identString(iv.Val))
+		}
+	}
+	left := map[string]int{}
+	for _, id := range model.items {
+		left[id]++
+	}
+	for _, id := range got {
+		left[id]--
+		if left[id] < 0 {
+			return fmt.Sprintf("%v is returned more often than it is stored", qtNames(ctx, []string{id}))
+		}
+	}
+	n, want := len(got), ctx.k
+	if len(model.items) < want {
+		want = len(model.items)
+	}
+	if n > want || ctx.maxT == nil && n != want {
+		return fmt.Sprintf("KNearest(%d) returns %d pointer(s), the tree holds %d", ctx.k, n, len(model.items))
+	}
+	q := pointTerms(it, ctx.from)
+	dist := func(p [2]*fterm) *fterm {
+		dx, dy := termAdd(p[0], q[0], -1), termAdd(p[1], q[1], -1)
+		return termAdd(termMul(dx, dx), termMul(dy, dy), 1)
+	}
+	g := pathOrderTerms(it, st)
+	terms, pts := map[string]*fterm{}, map[string][2]*fterm{}
+	for i, id := range ctx.ids {
+		pts[id] = pointTerms(it, ctx.points[i].(IfaceV).Val)
+		terms[id] = dist(pts[id])
+	}
+	seen := map[string]bool{}
+	for k := range g.nodes {
+		seen[k] = true
+	}
+	looked := func(t *fterm) bool { return seen[t.N.String()+"/"+t.D.String()] }
+	for i, id := range got {
+		if i+1 < len(got) && !g.leq(terms[id], terms[got[i+1]]) {
+			return fmt.Sprintf("nothing on this path establishes that %v (returned at %d) is at least as close as %v (returned after it)", qtNames(ctx, []string{id}), i, qtNames(ctx, []string{got[i+1]}))
+		}
+		if ctx.maxT != nil && !g.less(terms[id], ctx.maxT) {
+			return fmt.Sprintf("%v is returned, but nothing on this path establishes that it is strictly within the distance limit", qtNames(ctx, []string{id}))
+		}
+	}
+	for _, id := range ctx.ids {
+		if left[id] <= 0 {
+			continue
+		}
+		d := terms[id]
+		if n == ctx.k {
+			last := terms[got[n-1]]
+			if g.leq(last, d) || qtPrunedFarther(it, g, q, pts[id], last) {
+				continue
+			}
+		}
+		if ctx.maxT != nil && g.leq(ctx.maxT, d) {
+			continue
+		}
+		if os.Getenv("ORBCHECK_FINDDBG") != "" {
+			names := map[int]string{}
+			for i := range ctx.ids {
+				for k, t := range pointTerms(it, ctx.points[i].(IfaceV).Val) {
+					if a, ok := atomOf(t); ok {
+						names[a] = fmt.Sprintf("p%d.%c", i, "xy"[k])
+					}
+				}
+			}
+			for k, t := range q {
+				if a, ok := atomOf(t); ok {
+					names[a] = fmt.Sprintf("q.%c", "xy"[k])
+				}
+			}
+			fmt.Printf("KNN got=%v items=%v left-out=%v looked=%v\n", qtNames(ctx, got), qtNames(ctx, model.items), qtNames(ctx, []string{id}), looked(d))
+			for _, t := range st.trail {
+				if t.Fact != nil && t.Fact.A != nil {
+					fmt.Printf("   fact %s: %s %s %s taken=%v\n", t.Pos, it.nameTerm(t.Fact.A, names), t.Fact.Op, it.nameTerm(t.Fact.B, names), t.Fact.Taken)
+				} else {
+					fmt.Printf("   trail %s: %s\n", t.Pos, t.Desc)
+				}
+			}
+		}
+		if n == ctx.k {
+			return fmt.Sprintf("%v is stored and left out, but nothing on this path establishes that it is no closer than the last pointer returned", qtNames(ctx, []string{id}))
+		}
+		return fmt.Sprintf("%v is stored and left out although fewer than k pointers are returned, and nothing on this path places it outside the distance limit", qtNames(ctx, []string{id}))
 	}
 	return ""
 }
